@@ -217,7 +217,11 @@ func c09Sort(x *mc.Exec) {
 	case k.Type == j.AttrTypeBool:
 		alpha = []any{false, true}
 	case k.Type == j.AttrTypeUint64 || k.Type == j.AttrTypeUint:
-		alpha = []any{base[1], base[3], base[4]} // 1, MaxUint64, 2^63
+		// 2^53 and 2^53+1 are one float64; 1, MaxUint64, 2^63
+		alpha = []any{reflect.ValueOf(uint64(1 << 53)).Convert(reflect.TypeOf(base[0])).Interface(), base[7], base[1], base[3], base[4]}
+	case k.Type == j.AttrTypeInt64 || k.Type == j.AttrTypeInt:
+		// 2^53 and 2^53+1 are one float64; -1, MaxInt64, MaxInt64-1
+		alpha = []any{reflect.ValueOf(int64(1 << 53)).Convert(reflect.TypeOf(base[0])).Interface(), base[7], base[2], base[3], base[5]}
 	case k.Type == j.AttrTypeBytes:
 		alpha = []any{[]byte{1, 2}, []byte{2, 1}, []byte{1, 2, 3}}
 	case k.Type == j.AttrTypeString:
@@ -612,7 +616,7 @@ func c09Sequence(x *mc.Exec) {
 func init() {
 	Register(&Prop{
 		ID: "C09",
-		Rule: "Engine A, all choices Full: (a) 28 kinds x 4 collection implementations (SoftCollection, WrapperCollection, Resources of soft / of wrapped resources) x every assignment of a 3-value alphabet of the kind (incl. nil for nullable kinds, values above 2^63 for uint64, byte strings [1 2]/[2 1]/[1 2 3], ties) to 3 (thorough 4) resources x all 31 rule lists of length <= 2 over {k,-k,s,id,-id} (incl. the empty list) and, inside each case, ALL initial orders of the collection and page sizes 1, 2, n with every page number; (b) 4 implementations x n in 0..4 x every ID subset (+ unknown/repeated ids) x 5 filters x 4 rule lists x 9 sizes (0,1,2,n,n+1,2^63-1,2^63,2^64-1,3) x 5 page numbers with number*size < 2^63. (d) 14-resource collections (beyond the 12-element insertion-sort threshold of sort.Sort) for 28 kinds x 4 implementations x 31 rule lists x 18 structured initial orders; (c) every sequence of 3 Range calls from a menu of 6 (two collections, several page geometries) with all results retained and read only at the end. Oracle: independent select / filter / comparator (nil first, '-' reverses, later rules break ties) / slice; exact ID sequence and independence from the initial order when the rules contain id, otherwise sortedness + partition + page lengths; result non-nil, no panic, input collection unchanged. Non-trivial = every sort case; page cases that are neither empty nor complete",
+		Rule: "Engine A, all choices Full: (a) 28 kinds x 4 collection implementations (SoftCollection, WrapperCollection, Resources of soft / of wrapped resources) x every assignment of a 3-value alphabet of the kind (incl. nil for nullable kinds, values above 2^63 for uint64, for the 64-bit kinds a 5-value alphabet with 2^53 / 2^53+1 and MaxInt64 / MaxInt64-1, which collide as float64, byte strings [1 2]/[2 1]/[1 2 3], ties) to 3 (thorough 4) resources x all 31 rule lists of length <= 2 over {k,-k,s,id,-id} (incl. the empty list) and, inside each case, ALL initial orders of the collection and page sizes 1, 2, n with every page number; (b) 4 implementations x n in 0..4 x every ID subset (+ unknown/repeated ids) x 5 filters x 4 rule lists x 9 sizes (0,1,2,n,n+1,2^63-1,2^63,2^64-1,3) x 5 page numbers with number*size < 2^63. (d) 14-resource collections (beyond the 12-element insertion-sort threshold of sort.Sort) for 28 kinds x 4 implementations x 31 rule lists x 18 structured initial orders; (c) every sequence of 3 Range calls from a menu of 6 (two collections, several page geometries) with all results retained and read only at the end. Oracle: independent select / filter / comparator (nil first, '-' reverses, later rules break ties) / slice; exact ID sequence and independence from the initial order when the rules contain id, otherwise sortedness + partition + page lengths; result non-nil, no panic, input collection unchanged. Non-trivial = every sort case; page cases that are neither empty nor complete",
 		Harnesses: []Harness{
 			{Name: "C09/sort", Body: c09Sort},
 			{Name: "C09/page", Body: c09Page},
